@@ -335,7 +335,14 @@ func genLineItemAttrs(r *prng.R) *astisub.StyleAttributes {
 		return nil
 	}
 	a := &astisub.StyleAttributes{}
-	switch r.Intn(6) {
+	switch r.Intn(9) {
+	case 6: // built in code: one colour field only, no propagated twins
+		a.SRTColor = sp(genColor(r))
+	case 7:
+		a.TTMLColor = sp(genColor(r))
+	case 8:
+		a.SRTBold, a.SRTUnderline = r.Bool(0.7), r.Bool(0.5) // SRT styling without the WebVTT tags a reader would have added
+		a.WebVTTItalics = r.Bool(0.3)
 	case 0:
 		a.SRTBold, a.SRTItalics = true, r.Bool(0.5)
 		a.WebVTTTags = []astisub.WebVTTTag{{Name: "b"}}
